@@ -8,12 +8,12 @@
 From Coq Require Import ZArith List Bool.
 Open Scope Z_scope.
 From Mesa Require Common.ListX Generated.Tables.
-From Mesa Require Model.CellSpace Proofs.CellSpaceProofs Proofs.CellSpaceRefine.
-From Mesa Require Model.LegacyGrid Proofs.LegacyGridProofs Proofs.LegacyGridSim.
+From Mesa Require Model.CellSpace Proofs.CellSpaceProofs Proofs.CellSpaceRefine Model.CellSpaceX Proofs.CellSpaceXProofs.
+From Mesa Require Model.LegacyGrid Proofs.LegacyGridProofs Proofs.LegacyGridSim Model.NetGrid Proofs.NetGridProofs.
 From Mesa Require Model.ContGeom Model.ContLegacy Model.ContExp Proofs.ContExpProofs Proofs.ContLegacyProofs.
 From Mesa Require Model.PropLayer Proofs.PropLayerProofs Proofs.PropLayerEmpty.
 From Mesa Require Model.DataCollector Proofs.DataCollectorProofs.
-From Mesa Require Model.Devs Model.DevsSpec Proofs.DevsProofs Proofs.DevsAtomicProofs.
+From Mesa Require Model.Devs Model.DevsSpec Proofs.DevsProofs Proofs.DevsAtomicProofs Model.DevsLife Proofs.DevsLifeProofs.
 From Mesa Require Model.Signals Proofs.SignalsProofs.
 Import ListNotations.
 
@@ -28,9 +28,16 @@ Module CellSpaceSites.
   Theorem C18_cellspace_continue : forall e s o s' k rest, caps_ok e -> Inv e s ->
     step e s o = (s', Err k) -> run_ops e s' rest = run_ops e s rest.
   Proof. exact rejected_then_continue. Qed.
+  (* ... also with agents of all three classes created in the middle of the history *)
+  Import Mesa.Model.CellSpaceX Mesa.Proofs.CellSpaceXProofs.
+  Theorem C18_cellspace_growing_population : forall e frac n ops o x' k, caps_ok e -> api_only ops = true ->
+    let x := xexec e (xinit n) ops in
+    xstep e x o = (x', Err k) -> xview e frac x' = xview e frac x /\ eqv (xs x) (xs x').
+  Proof. exact x_atomic. Qed.
 End CellSpaceSites.
 Print Assumptions CellSpaceSites.C18_cellspace.
 Print Assumptions CellSpaceSites.C18_cellspace_continue.
+Print Assumptions CellSpaceSites.C18_cellspace_growing_population.
 
 (* ---- legacy grids: place/move onto an occupied SingleGrid cell, out of bounds on a bounded grid, swap_pos,
         move_to_empty without an empty cell, move_agent_to_one_of (bad selection, handle_empty="error") *)
@@ -45,6 +52,19 @@ Module LegacyGridSites.
 End LegacyGridSites.
 Print Assumptions LegacyGridSites.C18_legacygrid.
 Print Assumptions LegacyGridSites.C18_legacygrid_continue.
+
+(* ---- NetworkGrid: place / move towards a node that is not in the graph, placing a placed agent *)
+Module NetworkGridSites.
+  Import Mesa.Model.LegacyGrid Mesa.Model.NetGrid Mesa.Proofs.NetGridProofs.
+  Theorem C18_networkgrid : forall nodes s o s' e,
+    NAgree nodes s -> nstep nodes s o = (s', Err e) -> s' = s.
+  Proof. exact C18_networkgrid_atomic. Qed.
+  Theorem C18_networkgrid_history : forall nodes ops o s' e,
+    nstep nodes (nrun nodes ninit ops) o = (s', Err e) -> s' = nrun nodes ninit ops.
+  Proof. exact C18_networkgrid_atomic_history. Qed.
+End NetworkGridSites.
+Print Assumptions NetworkGridSites.C18_networkgrid.
+Print Assumptions NetworkGridSites.C18_networkgrid_history.
 
 (* ---- continuous spaces: out-of-bounds place / move / position assignment on a bounded space *)
 Module ContinuousSites.
@@ -114,9 +134,19 @@ Module SimulatorSites.
     do_sched cfg st k t p tag h body = (st', rc) -> rc <> R_OK ->
     run_ops cfg fuel st' ops = run_ops cfg fuel st ops.
   Proof. exact rejected_then_same_observations. Qed.
+  (* life cycle: setup() refused at a non-zero clock / with pending events, run calls without a model *)
+  Import Mesa.Model.DevsLife Mesa.Proofs.DevsLifeProofs.
+  Theorem C18_setup_rejected : forall cfg fuel m m' ob l, xstep cfg fuel m XSetup = (m', ob, l) ->
+    (ob = [-1; E_SETUP_TIME] \/ ob = [-1; E_SETUP_EVENTS]) -> m' = m /\ l = [].
+  Proof. exact setup_rejected_atomic. Qed.
+  Theorem C18_run_without_model : forall cfg fuel m o m' ob l, m_setup m = false -> is_run o = true ->
+    xstep cfg fuel m (XOp o) = (m', ob, l) -> m' = m /\ ob = [-1; E_NOSETUP] /\ l = [].
+  Proof. exact run_without_model_atomic. Qed.
 End SimulatorSites.
 Print Assumptions SimulatorSites.C18_schedule.
 Print Assumptions SimulatorSites.C18_schedule_continue.
+Print Assumptions SimulatorSites.C18_setup_rejected.
+Print Assumptions SimulatorSites.C18_run_without_model.
 
 (* ---- signal registries: observe with an unknown observable or signal type, All in either position *)
 Module SignalSites.
